@@ -66,12 +66,14 @@ OpExpected(x, r) ==       \* set of admissible <<next state, reply>>
   ELSE {<<LocalAccessF(x, z, r.k, r.kind, r.arg), Apply(x.store[z][r.k], r.kind, r.arg)[2]>> : z \in OpServedBy(x, r)}
 ReplyOf(r) == <<r.rtag, r.rv, SeqRange(r.rkids)>>
 
-Violations(x, quiet) ==
+(* okNow: the specification's ghost fields (cur, protocol counters) are trustworthy only while every step
+   of the scenario so far, including this one, was explained by the specification *)
+Violations(x, okNow) ==
   (IF SingleCopy(x) THEN {} ELSE {"SingleCopy"}) \cup
-  (IF ~ok \/ NoLoss(x) THEN {} ELSE {"NoLoss"}) \cup
-  (IF ~ok \/ NoGhost(x) THEN {} ELSE {"NoGhost"}) \cup
-  (IF ~ok \/ OneMembershipOp(x) THEN {} ELSE {"OneMembershipOp"}) \cup
-  (IF ~ok \/ NoBad(x) THEN {} ELSE {"Bad"})
+  (IF ~okNow \/ NoLoss(x) THEN {} ELSE {"NoLoss"}) \cup
+  (IF ~okNow \/ NoGhost(x) THEN {} ELSE {"NoGhost"}) \cup
+  (IF ~okNow \/ OneMembershipOp(x) THEN {} ELSE {"OneMembershipOp"}) \cup
+  (IF ~okNow \/ NoBad(x) THEN {} ELSE {"Bad"})
 
 TraceInit == l = 1 /\ ok = TRUE /\ ops = <<>> /\ s = Blank([npos |-> <<1>>, kpos |-> <<>>])
 
@@ -84,7 +86,7 @@ StepOp(r) ==
   IF cands # {} THEN
      LET c == CHOOSE c \in cands : TRUE IN
      /\ s' = c[1] /\ ok' = ok
-     /\ LET v == Violations(c[1], FALSE) IN v = {} \/ Emit([t |-> "viol", l |-> l, sid |-> r.sid, what |-> v, act |-> r.act, bad |-> c[1].bad])
+     /\ LET v == Violations(c[1], ok) IN v = {} \/ Emit([t |-> "viol", l |-> l, sid |-> r.sid, what |-> v, act |-> r.act, bad |-> c[1].bad])
   ELSE
      /\ s' = Resync(s, lg) /\ ok' = FALSE
      /\ Emit([t |-> "opdiv", l |-> l, sid |-> r.sid, kind |-> r.kind, k |-> r.k, res |-> r.res, reply |-> ReplyOf(r),
@@ -99,7 +101,7 @@ StepAct(r) ==
   /\ ok' = (ok /\ good)
   /\ good \/ Emit([t |-> "div", l |-> l, sid |-> r.sid, act |-> r.act, n |-> r.n, en |-> e.en,
                    exp |-> Phys(e.nx), got |-> lg])
-  /\ LET v == Violations(nx, FALSE) IN v = {} \/ Emit([t |-> "viol", l |-> l, sid |-> r.sid, what |-> v, act |-> r.act, bad |-> nx.bad])
+  /\ LET v == Violations(nx, ok /\ good) IN v = {} \/ Emit([t |-> "viol", l |-> l, sid |-> r.sid, what |-> v, act |-> r.act, bad |-> nx.bad])
 
 (* end-of-scenario judgement at a maintenance fixpoint with every operation finished *)
 StepQuiet(r) ==
